@@ -187,12 +187,6 @@ def gen_cases(tier):
                                 continue
                             if naming == "positional" and mech != "link":
                                 continue
-                            if variant == "target-uncertainty-not-self-equal" and mech == "link":
-                                # TODO baseline-defect: BaseObject.__eq__ compares the uncertainty attributes with !=
-                                # and nan != nan, so on the unchanged /repo clean() never removes the copy of a Property
-                                # whose uncertainty is float('nan') (nor the copy of a sub-Section holding one).  An
-                                # included target is not affected: a reader hands the uncertainty out as the text 'nan'.
-                                continue
                             cases.append({"shape": shape, "n": n, "links": [[li, ti, form]], "variant": variant,
                                           "mech": mech, "naming": naming})
             if n <= (5 if tier == "quick" else 5):
